@@ -38,6 +38,41 @@ def joinNl : StrList → Str
   | .SCons x .SNil => x
   | .SCons x r => x ++ [10] ++ joinNl r
 
+/-- split at the first occurrence of `sub`: (text before it, text after it) -/
+def splitFirst : Str → Str → Option (Str × Str)
+  | [], sub => if sub = [] then some ([], []) else none
+  | x :: xs, sub =>
+    match stripPre sub (x :: xs) with
+    | some rest => some ([], rest)
+    | none => (splitFirst xs sub).map (fun p => (x :: p.1, p.2))
+
+/-- `re.findall(o (.*?) c, s)` with DOTALL-like `(?:.|\r|\n)`: leftmost `o`, then the first `c` after it, then continue after
+that `c` (explicit fuel; `s.length + 1` suffices for non-empty `o`, `c`) -/
+def reFindallLazyAux (o c : Str) : Nat → Str → StrList
+  | 0, _ => .SNil
+  | f+1, s =>
+    match splitFirst s o with
+    | none => .SNil
+    | some (_, rest) =>
+      match splitFirst rest c with
+      | none => .SNil
+      | some (text, post) => .SCons text (reFindallLazyAux o c f post)
+
+def reFindallLazy (o c s : Str) : StrList := reFindallLazyAux o c (s.length + 1) s
+
+/-- `re.sub(<that pattern>, "", s)` -/
+def reSubLazyAux (o c : Str) : Nat → Str → Str
+  | 0, s => s
+  | f+1, s =>
+    match splitFirst s o with
+    | none => s
+    | some (pre, rest) =>
+      match splitFirst rest c with
+      | none => s
+      | some (_, post) => pre ++ reSubLazyAux o c f post
+
+def reSubLazy (o c s : Str) : Str := reSubLazyAux o c (s.length + 1) s
+
 def dropWsLeft : Str → Str
   | [] => []
   | c :: cs => if isWs c then dropWsLeft cs else c :: cs
